@@ -415,6 +415,10 @@ func (fc *FuncCtx) execAssign(x *ast.AssignStmt, st *St) {
 					fc.unsupported(st, "assignment target", fc.pos(l))
 					return
 				}
+				if pv, ok := obj.(*types.Var); ok && pv.Pkg() != nil && pv.Parent() == pv.Pkg().Scope() {
+					fc.assignTo(l, v, st)
+					continue
+				}
 				st.vars[obj] = fc.nameIt(st, id.Name, fc.coerce(v, obj.Type()))
 				continue
 			}
@@ -819,7 +823,7 @@ func (fc *FuncCtx) evalIdent(x *ast.Ident, st *St) Term {
 		fc.unsupported(st, "unknown variable "+x.Name, fc.pos(x))
 		return T("0", SInt)
 	case *types.Func:
-		return fc.namedFuncVal(o)
+		return fc.namedFuncValAt(o, x)
 	case *types.Const:
 		if t, ok := fc.constTerm(o.Val(), o.Type(), st); ok {
 			return t
@@ -827,6 +831,25 @@ func (fc *FuncCtx) evalIdent(x *ast.Ident, st *St) Term {
 	}
 	fc.unsupported(st, "identifier kind "+x.Name, fc.pos(x))
 	return T("0", SInt)
+}
+
+// namedFuncValAt: a reference to a declared function at an identifier; records the instantiation of a
+// generic function so that its contract can be translated when the value is called later.
+func (fc *FuncCtx) namedFuncValAt(o *types.Func, id *ast.Ident) Term {
+	t := fc.namedFuncVal(o)
+	if inst, ok := fc.info().Instances[id]; ok {
+		if sig, ok := o.Type().(*types.Signature); ok && sig.TypeParams() != nil {
+			m := map[string]*Sort{}
+			for i := 0; i < sig.TypeParams().Len() && i < inst.TypeArgs.Len(); i++ {
+				m[sig.TypeParams().At(i).Obj().Name()] = fc.sortOf(inst.TypeArgs.At(i))
+			}
+			t.Fn.TArgs = m
+			if s2, ok := inst.Type.(*types.Signature); ok {
+				t.Fn.Sig = s2
+			}
+		}
+	}
+	return t
 }
 
 func (fc *FuncCtx) namedFuncVal(o *types.Func) Term {
@@ -1011,6 +1034,7 @@ func (fc *FuncCtx) check(st *St, cond Term, kind string, pos string, what string
 func (fc *FuncCtx) panicCond(st *St) Term {
 	env := fc.newEnv(fc.entry)
 	env.old = fc.entry
+	env.cur = st // ghost variables have their current value
 	return fc.spec(fc.Con.PanicsCond, env)
 }
 
@@ -1141,7 +1165,7 @@ func (fc *FuncCtx) evalSelector(x *ast.SelectorExpr, st *St) Term {
 			obj := fc.info().ObjectOf(x.Sel)
 			switch o := obj.(type) {
 			case *types.Func:
-				return fc.namedFuncVal(o)
+				return fc.namedFuncValAt(o, x.Sel)
 			case *types.Var:
 				return fc.pkgVar(o, st)
 			case *types.Const:
